@@ -115,7 +115,8 @@ def main(name):
     d = tempfile.mkdtemp(prefix="c14real_", dir=os.environ.get("VERIF_SCRATCH") or None)
     problems = []
     try:
-        storage = TextFileStorage(d, number_of_data=cfg["presize"])
+        kw = {"file_prefix": "px"} if name in ("reversed_gapped", "sessions") else {}
+        storage = TextFileStorage(d, number_of_data=cfg["presize"], **kw)
         errq = ctx.Queue()
         stop = ctx.Event()
         ws = [ctx.Process(target=writer, args=(name, cfg, storage, w, errq)) for w in range(cfg["writers"])]
